@@ -87,7 +87,7 @@ class G:
         k = self.r.choice(['int', 'int', 'big', 'dec', 'exp', 'neg', 'dot0', 'Exp', 'negz'])
         base = 7000000 + self.p.n
         lit = {'int': str(base), 'big': str(base) + '123456789012', 'dec': str(base) + '.25', 'exp': str(base) + 'e3', 'neg': '-' + str(base),
-               'dot0': str(base) + '.0', 'Exp': str(base) + 'E+0', 'negz': self.r.choice(['-0.0', '-0e0', '0.0', '-0', '0e0', '0.000'])}[k]
+               'dot0': str(base) + '.0', 'Exp': str(base) + 'E+0', 'negz': self.r.choice(['-0.0', '-0e0', '0.0', '-0', '0e0', '0.000', '0.0000001', '-0.0000005', '1000000000000000000000', '0.000001', '123456789012345678901234567890'])}[k]
         self.p.sens_numbers.append((str(base), where))
         if self.lr is not None and self.vary_nums:
             lit = self.lr.choice(['0', '-0', '1', '12345678901234567890', '3.25', '1e-9', '-7E+3', '-0.0', '1.0', '0e0', str(self.lr.randint(-10**9, 10**9))])
@@ -282,9 +282,9 @@ class G:
         if k == '$count': return {'$count': self.name()}
         if k == '$sortByCount': return {'$sortByCount': self.expr_nolit(w, depth + 1)}
         if k == '$unset': return {'$unset': self.r.choice([self.field(), [self.field(), self.field()]])}
-        if k == '$replaceRoot': return {'$replaceRoot': {'newRoot': self.expr_nolit(w, depth + 1)}}
+        if k == '$replaceRoot': return {'$replaceRoot': {'newRoot': self.r.choice([self.expr_nolit(w, depth + 1), {'$mergeObjects': [{self.field(): self.s_string(w + '.newRoot')}, '$$ROOT']}, {'$ifNull': [self.fieldref(), {self.field(): self.s_string(w + '.newRoot')}]}])}}
         if k == '$replaceWith': return {'$replaceWith': self.expr(w, depth + 1)}
-        if k == '$bucket': return {'$bucket': {'groupBy': self.expr_nolit(w, depth + 1), 'boundaries': [self.s_number(w), self.s_number(w)], 'default': self.s_string(w + '.default'), 'output': {self.name(): {'$sum': RawNum('1')}}}}
+        if k == '$bucket': return {'$bucket': {'groupBy': self.r.choice([self.expr_nolit(w, depth + 1), {'$ifNull': [self.fieldref(), self.s_string(w + '.groupBy')]}]), 'boundaries': [self.s_number(w), self.s_number(w)], 'default': self.s_string(w + '.default'), 'output': {self.name(): {'$sum': RawNum('1')}}}}
         if k == '$bucketAuto': return {'$bucketAuto': {'groupBy': self.expr(w, depth + 1), 'buckets': RawNum('5')}}
         if k == '$redact': return {'$redact': {'$cond': [self.expr(w, depth + 1), '$$KEEP', '$$PRUNE']}}
         if k == '$geoNear': return {'$geoNear': {'near': {'type': 'Point', 'coordinates': [self.s_number(w), self.s_number(w)]}, 'distanceField': self.name(), 'maxDistance': self.s_number(w), 'query': self.filter(w + '.query', depth + 1), 'spherical': True}}
@@ -455,6 +455,9 @@ def command_line(rng, vocab=None, collide=False, depth=4, lit_rng=None, vary_num
             if 'command' not in attr:
                 attr['command'] = {'getMore': RawNum('77'), 'collection': coll, '$db': db}
     ip = '10.%d.%d.%d:%d' % (rng.randint(0, 255), rng.randint(0, 255), rng.randint(1, 254), rng.randint(1024, 65000))
+    if rng.random() < 0.35:   # other peer notations a server logs
+        ip = rng.choice(['[2001:db8::%x]:%d' % (rng.randint(1, 65535), rng.randint(1024, 65000)), '[::ffff:203.0.113.%d]:51234' % rng.randint(1, 254), '[fe80::1c2d:%x%%eth0]:51234' % rng.randint(1, 65535),
+                         '[::1]:27017', 'client-%d.corp.example:40123' % rng.randint(1, 999), '/tmp/mongodb-27017.sock', '192.0.2.%d' % rng.randint(1, 254)])
     attr['remote'] = ip
     ps0 = rng.choice(['COLLSCAN', 'IXSCAN { uf_a: 1 }', 'IXSCAN { name: 1, age: -1 }', 'IDHACK'])
     attr['planSummary'] = plan if plan is not None else ps0
@@ -478,7 +481,7 @@ def anyjson_tree(rng, vocab, depth=0, maxdepth=5):
     if k == 'str': return rng.choice(['x', '', 'a@b.co', 'héllo', '2024-01-01T00:00:00Z', 'REDACTED', '0123456789abcdef01234567', 'a"b\\c\n', '\U0001F600', '<tag>&',
                                       'C:\\dir\\file.txt', 'lit\\u0041esc', 'trail\\', '\x1b[31mred\x1b[0m', 'bell\x07', 'vt\x0b ff\x0c bs\x08', 'del\x7f', 'tag\U000e0001x', 'nbsp\u00a0 ls\u2028 ps\u2029', '\ufeffbom', 'nul\x00z'])
     if k == 'dollar': return rng.choice(['$name', '$$ROOT', '$', '$a.b', '$eq', '$limit'])
-    if k == 'num': return RawNum(rng.choice(['0', '1', '-1', '1.5', '1e10', '-0', '12345678901234567890', '0.1e-7', '1E+2', '9007199254740993', '-0.0', '-0e0', '0.0', '1.0', '100e-2', '1E0', '0.10', '1e400', '-1e-400']))
+    if k == 'num': return RawNum(rng.choice(['0', '1', '-1', '1.5', '1e10', '-0', '12345678901234567890', '0.1e-7', '1E+2', '9007199254740993', '-0.0', '-0e0', '0.0', '1.0', '100e-2', '1E0', '0.10', '1e400', '-1e-400', '0.0000001', '-0.0000005', '1000000000000000000000', '0.000001', '999999999999999999999.5']))
     if k == 'bool': return rng.choice([True, False])
     if k == 'null': return None
     if k == 'emptyobj': return {}
@@ -486,7 +489,7 @@ def anyjson_tree(rng, vocab, depth=0, maxdepth=5):
     if k == 'arr': return [anyjson_tree(rng, vocab, depth + 1, maxdepth) for _ in range(rng.randint(1, 3))]
     d = {}
     for _ in range(rng.randint(1, 4)):
-        key = rng.choice(vocab['all']) if rng.random() < 0.6 else rng.choice(USER_FIELDS + ['', 'a.b', '$x', 'k"q'])
+        key = rng.choice(vocab['all']) if rng.random() < 0.6 else rng.choice(USER_FIELDS + ['', 'a.b', '$x', 'k"q', 'na\x01me', 'k\x7f', 'esc\x1bkey', 'bell\x07', 'tab\tkey', 'ключ', 'k\u2028e', 'back\\slash'])
         d[key] = anyjson_tree(rng, vocab, depth + 1, maxdepth)
     return d
 
